@@ -295,6 +295,26 @@ def FTy.wf : FTy → Bool
   | .optIntZ _ => false
   | _ => true
 
+/-! ## sets of strings (`QSet<QString>`): canonical form = strictly increasing by code point -/
+
+def ltStr : Str → Str → Bool
+  | [], [] => false
+  | [], _ :: _ => true
+  | _ :: _, [] => false
+  | a :: as, b :: bs => a.toNat < b.toNat || (a.toNat == b.toNat && ltStr as bs)
+
+def insertSet (x : Str) : List Str → List Str
+  | [] => [x]
+  | y :: ys => if ltStr x y then x :: y :: ys else if x == y then y :: ys else y :: insertSet x ys
+
+/-- sorted, duplicates removed -/
+def mkSet (l : List Str) : List Str := l.foldr insertSet []
+
+def sortedB : List Str → Bool
+  | [] => true
+  | [_] => true
+  | x :: y :: r => ltStr x y && sortedB (y :: r)
+
 /-! ## trees -/
 
 mutual
@@ -364,19 +384,19 @@ inductive ChildMode
   | wrapOmit
   /-- wrapper element always written -/
   | wrapAlways
-  /-- element written only when one of its first `n` fields writes something (`if (type == NoType && condition ==
-  NoCondition) return;`); without them the class treats the element as absent, so it also READS as absent (all
-  defaults) — canonical values have all fields unset when the first `n` are -/
-  | wrapGuard (n : Nat)
+  /-- element written only when one of the fields marked `true` in `mask` writes something (`if (type == NoType &&
+  condition == NoCondition) return;`); without them the class treats the element as absent, so it also READS as absent
+  (all defaults) — canonical values have all fields unset when the marked ones are -/
+  | wrapGuard (mask : List Bool)
   deriving Repr, BEq, DecidableEq
 
 def ChildMode.isGuard : ChildMode → Bool
   | .wrapGuard _ => true
   | _ => false
 
-def ChildMode.guardN : ChildMode → Nat
-  | .wrapGuard n => n
-  | _ => 0
+def ChildMode.guardN : ChildMode → List Bool
+  | .wrapGuard m => m
+  | _ => []
 
 inductive Field
   /-- attribute; `omitD`: not written when the value is the default -/
@@ -401,6 +421,10 @@ inductive Field
   /-- repeated items (`iterChildElements(el, tag, ns)`); `nonEmpty`: `fromDom` rejects the element
   when there is no item -/
   | many (h : Head) (fields : List Field) (nonEmpty : Bool)
+  /-- a SET of strings, one `<tag>text</tag>` child each (`QSet<QString>`: roster groups).  The value is the list of
+  the members in strictly increasing order (by code point); the class writes them in hash order, so documents are
+  compared up to the order of these siblings (the harness sorts them). -/
+  | strSet (h : Head)
   deriving Repr
 
 /-- `<tag>text</tag>` child (`writeXmlTextElement` / `writeOptionalXmlTextElement`) -/
@@ -420,6 +444,14 @@ def Val.isSomeOpt : Val → Bool
 def Val.tagParts : Val → Option (Option Nat × Str)
   | .record [.opt i, .str t] => some (i, t)
   | _ => none
+
+def Val.getStr : Val → Str
+  | .str s => s
+  | _ => []
+
+def Val.isStr : Val → Bool
+  | .str _ => true
+  | _ => false
 
 def Val.recVals : Val → List Val
   | .record vs => vs
@@ -453,6 +485,10 @@ mutual
       match v with
       | .list items => ([], items.map fun it => let r := encFs fs it.recVals; h.mk' r.1 r.2)
       | _ => ([], [])
+    | .strSet h, v =>
+      match v with
+      | .list items => ([], items.map fun it => h.mk' [] (textNode it.getStr))
+      | _ => ([], [])
   def encFs : List Field → List Val → List (Str × Str) × List Node
     | [], _ => ([], [])
     | _ :: _, [] => ([], [])
@@ -460,14 +496,14 @@ mutual
       let a := encF f v
       let b := encFs fs vs
       (a.1 ++ b.1, a.2 ++ b.2)
-  /-- the first `n` fields write nothing -/
-  def guardEmpty : Nat → List Field → List Val → Bool
-    | 0, _, _ => true
-    | _ + 1, [], _ => true
-    | _ + 1, _ :: _, [] => true
-    | n + 1, f :: fs, v :: vs =>
+  /-- the fields marked in the mask write nothing -/
+  def guardEmpty : List Bool → List Field → List Val → Bool
+    | [], _, _ => true
+    | _ :: _, [], _ => true
+    | _ :: _, _ :: _, [] => true
+    | b :: bs, f :: fs, v :: vs =>
       let a := encF f v
-      a.1.isEmpty && a.2.isEmpty && guardEmpty n fs vs
+      (!b || (a.1.isEmpty && a.2.isEmpty)) && guardEmpty bs fs vs
 end
 
 def guardOff (mode : ChildMode) (fs : List Field) (vs : List Val) : Bool :=
@@ -500,6 +536,7 @@ mutual
       | none => if mode == .optional then .absent else .record (decFs h.ns nullNode fs)
     | .many h fs _ =>
       .list ((x.kids.filter (h.matches pns)).map fun k => .record (decFs (k.nsOf pns) k fs))
+    | .strSet h => .list ((mkSet ((x.kids.filter (h.matches pns)).map deepText)).map Val.str)
   def decFs (pns : Str) (x : Node) : List Field → List Val
     | [] => []
     | f :: fs => decF pns x f :: decFs pns x fs
@@ -534,6 +571,10 @@ mutual
         | .record vs => canonFs fs vs
         | _ => false
       | _ => false
+    | .strSet _, v =>
+      match v with
+      | .list items => items.all Val.isStr && sortedB (items.map Val.getStr)
+      | _ => false
   def canonFs : List Field → List Val → Bool
     | [], [] => true
     | f :: fs, v :: vs => canonF f v && canonFs fs vs
@@ -551,6 +592,7 @@ def Field.heads : Field → List (Str × Str)
   | .tagChild ns _ _ names _ _ _ _ => names.map fun n => (n, ns)
   | .child h _ _ => [(h.tag, h.ns)]
   | .many h _ _ => [(h.tag, h.ns)]
+  | .strSet h => [(h.tag, h.ns)]
 
 def Field.emitsKids : Field → Bool
   | .attr .. => false
@@ -566,6 +608,7 @@ def Field.sees (pns : Str) : Field → Node → Bool
   | .tagChild ns _ anyNs names skip knownOnly _ _, k => tagCand ns anyNs names skip knownOnly pns k
   | .child h _ _, k => h.matches pns k
   | .many h _ _, k => h.matches pns k
+  | .strSet h, k => h.matches pns k
 
 /-- the attribute names field `f` reads -/
 def Field.reads : Field → Str → Bool
@@ -607,6 +650,10 @@ def indep (f g : Field) : Bool :=
     match g with
     | .text _ => true
     | _ => g.heads.all fun hd => !((h.anyTag || hd.1 == h.tag) && (h.anyNs || hd.2 == h.ns))
+  | .strSet h =>
+    match g with
+    | .text _ => true
+    | _ => g.heads.all fun hd => !((h.anyTag || hd.1 == h.tag) && (h.anyNs || hd.2 == h.ns))
 
 /-- the child ends up in namespace `h.ns` when written inside an element of namespace `pns` -/
 def Head.ok (pns : Str) (h : Head) : Bool := h.decl || h.ns == pns
@@ -629,6 +676,7 @@ mutual
       | .wrapAlways => false
       | _ => quietFs fs
     | .many .. => true
+    | .strSet _ => true
   def quietFs : List Field → Bool
     | [] => true
     | f :: fs => quietF f && quietFs fs
@@ -644,6 +692,7 @@ mutual
       (decl || ns == pns) && !names.contains [] && nodupB names && names.all fun n => !skip.contains n
     | .child h fs mode => h.ok pns && h.extraOk fs && wfFs h.ns fs && (!mode.isGuard || quietFs fs)
     | .many h fs _ => h.ok pns && h.extraOk fs && wfFs h.ns fs
+    | .strSet h => h.ok pns && h.extraOk []
   def wfFs (pns : Str) : List Field → Bool
     | [] => true
     | f :: fs => wfF pns f && fs.all (fun g => indep f g && indep g f) && wfFs pns fs
